@@ -27,7 +27,10 @@ RULE = (
 )
 
 KINDS = ["grad1", "nested", "fwd_rev", "rev_fwd", "hvp", "jacobian", "nested3", "nested_jvp", "nested_twice", "two_calls",
-         "shared_tjp", "shared_hvp_twice", "shared_grad", "grad1_bwd", "nested_bwd", "shared_jvp", "shared_args", "shared_ckpt"]
+         "shared_tjp", "shared_hvp_twice", "shared_grad", "grad1_bwd", "nested_bwd", "shared_jvp", "shared_args", "shared_ckpt", "nested_worker"]
+
+# kinds whose result must equal that of another kind: the same arithmetic with the inner differentiation run in the calling thread
+TWIN = {"nested_worker": "nested"}
 
 _TLS = __import__("threading").local()
 _SHARED = {}
@@ -113,17 +116,28 @@ def make_prog(kind, a):
             r = autograd.grad(f)(0.5 + a)
             s.yp()
             return conv(r)
-    elif kind in ("nested", "nested_jvp"):
+    elif kind in ("nested", "nested_jvp", "nested_worker"):
         def prog(s):
             def outer(x):
                 s.enter(); s.yp()
 
                 def inner(y):
-                    s.enter(); s.yp()
+                    if kind != "nested_worker":
+                        s.enter(); s.yp()
                     r = x * y * y + a * y
-                    s.yp(); s.leave()
+                    if kind != "nested_worker":
+                        s.yp(); s.leave()
                     return r
-                gi = autograd.grad(inner)(x) if kind == "nested" else autograd.make_jvp(inner)(x)(1.0)[1]
+                if kind == "nested_worker":
+                    # the inner differentiation (closing over the outer traced value) runs in a worker thread the function starts and joins
+                    import threading as _th
+
+                    box = []
+                    w_ = _th.Thread(target=lambda: box.append(autograd.grad(inner)(x)))
+                    w_.start(); w_.join()
+                    gi = box[0]
+                else:
+                    gi = autograd.grad(inner)(x) if kind == "nested" else autograd.make_jvp(inner)(x)(1.0)[1]
                 s.yp()
                 out = x * gi
                 s.yp(); s.leave()
@@ -340,6 +354,9 @@ def make_prog(kind, a):
 def run_case(kinds, params, schedule):
     progs = [make_prog(k, a) for k, a in zip(kinds, params)]
     solo = [Sched(1, []).run([p])[0] for p in progs]
+    for i, (k, a) in enumerate(zip(kinds, params)):
+        if k in TWIN:  # the reference is the twin program (inner differentiation in the calling thread), not the program's own solo run
+            solo[i] = Sched(1, []).run([make_prog(TWIN[k], a)])[0]
     sch = Sched(len(progs), schedule)
     got = sch.run(progs)
     return solo, got, sch
@@ -403,7 +420,7 @@ def fine_body(c):
     schedule = [(c.int(0, n - 1), c.int(1, 60)) for _ in range(c.int(1, 40))]
     sample = {"kinds": kinds, "params": params, "schedule": [list(p) for p in schedule], "fine": True}
     progs = [make_prog(k, a) for k, a in zip(kinds, params)]
-    solo = [Sched(1, []).run([p])[0] for p in progs]
+    solo = [Sched(1, []).run([p])[0] if k not in TWIN else Sched(1, []).run([make_prog(TWIN[k], a)])[0] for p, k, a in zip(progs, kinds, params)]
     sch = Sched(len(progs), schedule)
     sch.fine = True
     _fine_events(True)
